@@ -80,6 +80,8 @@ func (c *Ctx) c17IndexAgreement() {
 	c.c17PermTable()
 	r.Rule("R17.10", "the owner comes from the record: where a function has loaded the governed object (a *Service, whose owner is its ChainID; a *Dapp, whose owner is its OwnerAddr) and then checks a Self / Admin permission, the identity it hands to checkPermission is that owner field of the loaded record - not something parsed out of the caller-supplied id string (appchain ids are free-form and may contain the separator, so the part before the first ':' of a service id can name another registered appchain, whose admin would then govern a service it does not own).")
 	c.c17OwnerFromRecord()
+	r.Rule("R17.11", "a reverse index follows its list: a function that stores a list of ids under a key of the owner (SetObject(ListKey(owner), ids)) and, for every id of the new list, a reverse entry (SetObject(EntryKey(id), owner)) also deletes the reverse entries of the ids of the list stored before (Delete(EntryKey(old)) for the elements loaded under the same ListKey(owner)), and reads that old list before it overwrites it. The reverse entry is what a permission check consults (appchain admin -> chain: PermissionSelf of the appchain manager); an id that is dropped from the list but keeps its entry keeps the permission.")
+	c.c17ReverseIndex()
 	type site struct {
 		idx, ctor, pos, fn string
 	}
